@@ -6,9 +6,37 @@ An obligation is a plain function body(cfg) -> verdict:
     anything else   violation (the value is kept as the detail)
 A body may call nontrivial() to mark the path as a non-trivial case.
 """
+import signal
 import traceback
 
 from . import nondet
+
+PATH_CPU_LIMIT = 30.0  # seconds of CPU for ONE path; ordinary paths take 0.03-2 s
+
+
+class PathHang(Exception):
+    """the real code did not come back within PATH_CPU_LIMIT CPU-seconds on one path (e.g. it follows a parent
+    cycle for ever); raised from a SIGVTALRM handler so that a hang becomes a replayable failing path"""
+
+
+def _on_alarm(signum, frame):
+    raise PathHang("no result after %.0f s of CPU time on this path" % PATH_CPU_LIMIT)
+
+
+def _arm():
+    try:
+        signal.signal(signal.SIGVTALRM, _on_alarm)
+        signal.setitimer(signal.ITIMER_VIRTUAL, PATH_CPU_LIMIT)
+        return True
+    except (ValueError, AttributeError, OSError):  # not the main thread / platform without it
+        return False
+
+
+def _disarm():
+    try:
+        signal.setitimer(signal.ITIMER_VIRTUAL, 0)
+    except (ValueError, AttributeError, OSError):
+        pass
 
 BODY = None
 CFG = None
@@ -32,10 +60,13 @@ def nontrivial():
 def step():
     nondet.begin()
     _nontrivial[0] = False
+    _arm()
     try:
         v = BODY(CFG)
     except Exception as exc:  # CrossHair's control-flow exceptions are BaseException
         v = {"unexpected_exception": repr(exc), "traceback": traceback.format_exc(limit=8)}
+    finally:
+        _disarm()
     STATS["paths"] += 1
     if _nontrivial[0]:
         key = nondet.shape_key()
